@@ -1,6 +1,7 @@
 package zzverif
 
 import (
+	"time"
 	"fmt"
 	"sort"
 	"strings"
@@ -70,6 +71,7 @@ func CheckTokenGame(pfx string, prog *Program, hist []simlog.Ev) *TokenGameResul
 	var errs []string
 	var finalVars map[string]any
 	cancelled := false
+	var mockNow time.Duration
 	taskErrWant := map[string]int{}
 	taskErrGot := map[string]int{}
 	retried := map[string]int{}
@@ -142,6 +144,24 @@ func CheckTokenGame(pfx string, prog *Program, hist []simlog.Ev) *TokenGameResul
 			// an event handed to the instance at a moment when the engine was quiescent (or whose effect
 			// does not depend on the order among the events delivered with it)
 			m.Deliver(ev.A, ev.B)
+		case "clock-advance":
+			// the mock clock of the instance's timers moves on (at a quiescent moment): every duration timer of a
+			// catch event that is marked exact (Ref set) and becomes due fires once, as an event of its own
+			if dur, err := time.ParseDuration(ev.A); err == nil {
+				before := mockNow
+				mockNow += dur
+				for _, n := range g.allNodes() {
+					for _, dd := range n.Events {
+						if dd.Kind != "timer" || dd.Ref == "" || !strings.HasPrefix(dd.Timer, "D:PT") {
+							continue
+						}
+						due, err := time.ParseDuration(strings.ToLower(strings.TrimPrefix(dd.Timer, "D:PT")))
+						if err == nil && before < due && mockNow >= due {
+							m.Deliver("timer", dd.Ref)
+						}
+					}
+				}
+			}
 		case "ans-err", "ans-skip":
 			taskErrWant[ev.A]++
 			if e := m.Answer(ev.A, nil, nil); e != "" {
